@@ -106,6 +106,9 @@ SqlLineHolds(st, e) ==
 (*------------------------------------ planner_labels_joiner.go ---------------------------------------------*)
 JoinLabels(s, db) == IF \E r \in TimeSeries(db) : TypeIn(r.type) /\ r.fp = s THEN StreamLbls(s) ELSE NoLabels
 
+(* the same for a fingerprint given as label function (labelsFromScratch / the final join of matrix requests)  *)
+JoinLabels2(fp, db) == IF \E r \in TimeSeries(db) : TypeIn(r.type) /\ StreamLbls(r.fp) = fp THEN fp ELSE NoLabels
+
 (*------------------------------------ planner_parser_json.go -----------------------------------------------*)
 (* if(JSONType(string, p1,..,pk AS jp) == 'String', JSONExtractString(string, jp), JSONExtractRaw(string, jp)): *)
 (* the alias names only the LAST path element, so the extraction reads the top-level field called like the     *)
@@ -218,4 +221,153 @@ PlanRows(q, db) ==
 PlanEval(q, db) ==
     IF SqlRejected(CHPipe(ParsedPipe(q.p, 1))) THEN [err |-> TRUE, rows |-> {}]
     ELSE [err |-> FALSE, rows |-> PlanRows(q, db)]
+
+(*==================================== metric queries (C08) ==================================================*)
+(* planner.go Plan + MatrixPostProcessors: FixPeriodPlanner(ZeroEaterPlanner(ClickhouseGetter(SQL))) where SQL  *)
+(* is built in the order of analyze.go getFunctionOrder: range function [comparison] [by/without + vector       *)
+(* aggregation [comparison]] [topk [comparison]] StepFixPlanner labels-join finalizer.                          *)
+(* Rows are [fp, ts, v, lbls, hl, opt]: fp = what the fingerprint column identifies (a label function), hl =    *)
+(* the row has a labels column.                                                                                 *)
+GoDiv(a, b) == IF a >= 0 THEN a \div b ELSE -((-a) \div b)          \* Go integer division truncates toward zero
+
+HasUnwrap(p) == Len(p) > 0 /\ p[Len(p)].k = "unwrap"
+HasParser(p) == \E i \in DOMAIN p : IsParser(p[i])
+
+(* analyze.go AnalyzeMetrics15sShortcut *)
+Shortcut(q, pp) ==
+    /\ q.mq.fn \in {"rate", "count_over_time"}
+    /\ q.mq.range * q.mq.unit >= 15
+    /\ ~HasUnwrap(pp)
+    /\ \A i \in DOMAIN pp : ~IsParser(pp[i]) /\ pp[i].k \notin {"drop", "dropv", "lf"}
+
+(* planner_from_fix.go: ctx.From = From.Truncate(range), ctx.To = To.Truncate(range) + range                    *)
+FixFrom(q) == Bucket(q.from, q.mq.range)
+FixTo(q)   == Bucket(q.to, q.mq.range) + q.mq.range
+
+(* planner_unwrap.go: toFloat64OrZero(labels['x'])                                                              *)
+UnwrapSql(lbls, name) == IF IsNum(lbls[name]) THEN NumVal[lbls[name]] ELSE 0
+
+(* samples -> rows of the range function ------------------------------------------------------------------- *)
+MRow(pp, db, i) == SqlPipe(pp, 1, db[i], NoLabels, LabelsJoinIdx(pp), db)
+MainRows(q, db, pp) ==
+    LET fps == ApplySimple(FpSel(q.m, db), pp, 1, db)
+    IN  {i \in DOMAIN db : /\ db[i].t >= FixFrom(q) /\ db[i].t < FixTo(q) /\ TypeIn(db[i].ty) /\ db[i].s \in fps
+                           /\ MRow(pp, db, i).ok}
+(* fingerprint of a sample row: planner_parser.go recomputes it from the labels alias; planner_drop.go does not *)
+RowFp(pp, db, i) == IF HasParser(pp) THEN MRow(pp, db, i).lbls ELSE StreamLbls(db[i].s)
+
+(* planner_lra.go / planner_unwrap_function.go (after planner_by_without.go processSimple for the function's    *)
+(* own by / without: fingerprint = cityHash64(labels) of the filtered map)                                      *)
+LraFp(q, pp, db, i) ==
+    IF IsUnwrapFn(q.mq.fn) /\ q.mq.ugrp # "" THEN Group(q.mq.ugrp, q.mq.uglbls, MRow(pp, db, i).lbls) ELSE RowFp(pp, db, i)
+LraLbls(q, pp, db, i) ==
+    IF IsUnwrapFn(q.mq.fn) /\ q.mq.ugrp # "" THEN Group(q.mq.ugrp, q.mq.uglbls, MRow(pp, db, i).lbls) ELSE MRow(pp, db, i).lbls
+LraValue(q, pp, db, E) ==
+    LET fn  == q.mq.fn
+        uv  == [i \in E |-> IF IsUnwrapFn(fn) THEN UnwrapSql(MRow(pp, db, i).lbls, pp[Len(pp)].lbl) ELSE 0]
+        ln  == [i \in E |-> db[i].len]
+        n   == Cardinality(E)
+        fst == CHOOSE i \in E : \A j \in E : db[i].t < db[j].t \/ (db[i].t = db[j].t /\ i <= j)
+        lst == CHOOSE i \in E : \A j \in E : db[i].t > db[j].t \/ (db[i].t = db[j].t /\ i >= j)
+    IN  CASE fn = "rate"            -> [num |-> n, den |-> q.mq.range]                   \* toFloat64(COUNT()) / range
+          [] fn = "count_over_time" -> [num |-> n, den |-> 1]
+          [] fn = "bytes_rate"      -> [num |-> SumOver(E, ln), den |-> q.mq.range]
+          [] fn = "bytes_over_time" -> [num |-> SumOver(E, ln), den |-> q.mq.range]      \* as coded: also divided
+          [] fn = "sum_over_time"   -> [num |-> SumOver(E, uv), den |-> 1]
+          [] fn = "avg_over_time"   -> [num |-> SumOver(E, uv), den |-> n]
+          [] fn = "min_over_time"   -> [num |-> CHOOSE x \in {uv[i] : i \in E} : \A y \in {uv[i] : i \in E} : x <= y, den |-> 1]
+          [] fn = "max_over_time"   -> [num |-> CHOOSE x \in {uv[i] : i \in E} : \A y \in {uv[i] : i \in E} : x >= y, den |-> 1]
+          [] fn = "first_over_time" -> [num |-> uv[fst], den |-> 1]                      \* argMin(value, timestamp_ns)
+          [] fn = "last_over_time"  -> [num |-> uv[lst], den |-> 1]
+          [] fn = "rate_unwrap"     -> [num |-> SumOver(E, uv), den |-> q.mq.range]
+
+LraRows(q, db, pp) ==
+    LET M    == MainRows(q, db, pp)
+        hl   == LabelsJoinIdx(pp) # 0
+        keys == {<<LraFp(q, pp, db, i), Bucket(db[i].t, q.mq.range)>> : i \in M}
+        grp(k) == {i \in M : LraFp(q, pp, db, i) = k[1] /\ Bucket(db[i].t, q.mq.range) = k[2]}
+    IN  {[fp |-> k[1], ts |-> k[2], v |-> LraValue(q, pp, db, grp(k)),
+          lbls |-> IF hl THEN LraLbls(q, pp, db, CHOOSE i \in grp(k) : TRUE) ELSE NoLabels, hl |-> hl, opt |-> FALSE] : k \in keys}
+
+(* planner_metrics15s_shortcut.go over the rows the materialized view metrics_15s_mv derives; seconds = ticks * *)
+(* unit.  The label filters of the pipeline are not planned at all on this path (analyzeScript returns early).  *)
+ShortcutRows(q, db) ==
+    LET u    == q.mq.unit
+        R    == q.mq.range
+        fps  == FpSel(q.m, db)
+        b15(i) == ((db[i].t * u) \div 15) * 15
+        lo   == ((FixFrom(q) * u) \div 15) * 15
+        hi   == ((FixTo(q) * u) \div 15) * 15
+        M    == {i \in DOMAIN db : TypeIn(db[i].ty) /\ db[i].s \in fps /\ b15(i) >= lo /\ b15(i) < hi}
+        rb(i) == ((b15(i) \div (R * u)) * (R * u)) \div u           \* intDiv(timestamp_ns, range) * range, in ticks
+        keys == {<<StreamLbls(db[i].s), rb(i)>> : i \in M}
+        n(k) == Cardinality({i \in M : StreamLbls(db[i].s) = k[1] /\ rb(i) = k[2]})
+    IN  {[fp |-> k[1], ts |-> k[2], v |-> [num |-> n(k), den |-> IF q.mq.fn = "rate" THEN R ELSE 1],
+          lbls |-> NoLabels, hl |-> FALSE, opt |-> FALSE] : k \in keys}
+
+(* planner_comparison.go: HAVING value <op> param                                                               *)
+Having(q, cmp, rows) == {r \in rows : CmpHolds(q, cmp, r.v)}
+
+(* planner_by_without.go + planner_agg_op.go                                                                    *)
+AggPlanRows(q, db, rows) ==
+    IF q.mq.agg = "" THEN rows
+    ELSE LET newfp(r) == IF q.mq.grp = "" THEN r.fp
+                         ELSE IF r.hl THEN Group(q.mq.grp, q.mq.glbls, r.lbls)            \* processSimple
+                         ELSE Group(q.mq.grp, q.mq.glbls, JoinLabels2(r.fp, db))          \* processTSTable
+             keys == {<<newfp(r), r.ts>> : r \in rows}
+             mem(k) == {r \in rows : newfp(r) = k[1] /\ r.ts = k[2]}
+             hl(k) == q.mq.grp # "" \/ (CHOOSE r \in mem(k) : TRUE).hl
+         IN  {[fp |-> k[1], ts |-> k[2], v |-> AggValue(q.mq.agg, {[k |-> r.fp, v |-> r.v] : r \in mem(k)}),
+               lbls |-> IF q.mq.grp # "" THEN k[1] ELSE (CHOOSE r \in mem(k) : TRUE).lbls, hl |-> hl(k), opt |-> FALSE] : k \in keys}
+
+(* planner_topk.go: per timestamp arraySort by (-value, fingerprint, ..) and arraySlice(.., 1, k): equal values *)
+(* are ordered by the fingerprint hash, i.e. arbitrarily for the abstraction: opt                               *)
+TopPlanRows(q, rows) ==
+    IF q.mq.topfn = "" THEN rows
+    ELSE LET same(r) == {x \in rows : x.ts = r.ts}
+             nbetter(r) == Cardinality({x \in same(r) : Better(q, x, r)})
+             nnotworse(r) == Cardinality({x \in same(r) : ~Better(q, r, x)})
+         IN  {[r EXCEPT !.opt = nnotworse(r) > q.mq.topk] : r \in {rr \in rows : nbetter(rr) < q.mq.topk}}
+
+(* planner_step_fix.go: only when range < step: GROUP BY intDiv(ts, step)*step, fingerprint; argMin(value, ts)  *)
+StepFixRows(q, rows) ==
+    IF q.mq.range >= q.mq.step THEN rows
+    ELSE LET keys == {<<r.fp, Bucket(r.ts, q.mq.step)>> : r \in rows}
+             mem(k) == {r \in rows : r.fp = k[1] /\ Bucket(r.ts, q.mq.step) = k[2]}
+             first(k) == CHOOSE r \in mem(k) : \A x \in mem(k) : r.ts <= x.ts
+         IN  {[first(k) EXCEPT !.ts = k[2]] : k \in keys}
+
+(* planner_labels_joiner.go at the end when no stage produced a labels column                                   *)
+FinalLabels(r, db) == IF r.hl THEN r.lbls ELSE JoinLabels2(r.fp, db)
+
+(* planner_zero_eater.go + planner_from_fix.go: per fingerprint, rows in timestamp order fill the array of      *)
+(* instants from idxFrom to idxTo (both inclusive); later rows overwrite; zero values are never exported        *)
+FixPeriodSeries(q, db, rows) ==
+    LET R == q.mq.range
+        S == q.mq.step
+        L == GoDiv(q.to - q.from, S) + 1
+        nz == {r \in rows : r.v.num # 0}
+        fps == {r.fp : r \in nz}
+        idxFrom(r) == GoDiv((r.ts \div R) * R - q.from, S)
+        idxTo(r)   == GoDiv((r.ts \div R + 1) * R - q.from, S)
+        covers(r, i) == /\ ~(idxTo(r) < 0 \/ idxFrom(r) >= L)
+                        /\ (IF idxFrom(r) < 0 THEN 0 ELSE idxFrom(r)) <= i
+                        /\ i <= (IF idxTo(r) >= L THEN L - 1 ELSE idxTo(r))
+        at(f, i) == {r \in nz : r.fp = f /\ covers(r, i)}
+        last(f, i) == CHOOSE r \in at(f, i) : \A x \in at(f, i) : x.ts <= r.ts
+        lbl(f) == FinalLabels(CHOOSE r \in nz : r.fp = f /\ \A x \in nz : x.fp = f => r.ts <= x.ts, db)
+    IN  {s \in {[lbls |-> lbl(f),
+                 pts |-> {[t |-> q.from + i * S, v |-> last(f, i).v, opt |-> last(f, i).opt] : i \in {j \in 0..(L - 1) : at(f, j) # {}}}] : f \in fps} :
+            s.pts # {}}
+
+PlanMetric(q, db) ==
+    LET pp == ParsedPipe(q.p, 1)
+    IN  IF ~Shortcut(q, pp) /\ (SqlRejected(pp) \/ (HasUnwrap(pp) /\ LabelsJoinIdx(pp) = 0))
+        THEN [err |-> TRUE, series |-> {}]              \* unknown identifier / "labels col not inited"
+        ELSE LET r0 == IF Shortcut(q, pp) THEN ShortcutRows(q, db) ELSE LraRows(q, db, pp)
+                 r1 == Having(q, q.mq.cmpl, r0)
+                 r2 == Having(q, q.mq.cmpa, AggPlanRows(q, db, r1))
+                 r3 == TopPlanRows(q, r2)
+                 r4 == StepFixRows(q, r3)
+             IN  [err |-> FALSE, series |-> FixPeriodSeries(q, db, r4)]
 =============================================================================
